@@ -711,9 +711,18 @@ for _pre in ("", "_"):
 # ------------------------------------------------------------------------------------------------
 # C05 — inversion of invertible matrices; in-place inversion of unit upper triangular matrices
 # ------------------------------------------------------------------------------------------------
+_inv_count = [0]
+
+
 @op("inv_m4ri", "C05", ["D", "A"])
 def b_inv_m4ri(g, W, sz):
     n = _tri_dim(g, sz)
+    if g.rng.random() < 0.6:
+        # mzd_inv_m4ri echelonises [A | I] with the automatic k (6 for 128 <= n < 512): every block is full except the
+        # last one, whose width is n mod 6k - walk through EVERY residue (each selects a different table split 1..6 and
+        # different table widths), independent of sz
+        _inv_count[0] += 1
+        n = 128 + 36 * g.rng.randint(0, 4) + (_inv_count[0] * 7) % 36
     ra = g.invertible_rows(n)
     la, da = g.operand("A", n, n, ra, W("A"))
     ld, dd, dn = _dst(g, W, "D", n, n)
@@ -824,6 +833,10 @@ def b_pluq_solve_left(g, W, sz):
 @op("kernel_left_pluq", "C07", ["A"])
 def b_kernel(g, W, sz):
     m, n = _ple_shape(g, sz)
+    if n > max(2 * sz, 330):
+        # the word-width class is capped at 5 words here: K is n x (n - r) and the checker's rank / product on a
+        # 1100 x 1000 basis would dominate the quick tier
+        n = 64 * g.rng.choice([1, 2, 3, 4, 5]) - g.rng.randint(1, 63)
     ra, ka = _ple_content(g, m, n)
     la, da = g.operand("A", m, n, ra, W("A"))
     cut = g.rng.choice(_SCUT)
